@@ -61,6 +61,7 @@ var govFuncs = map[string][]govFunc{
 			{clUnparse, "max_s", "abc"},
 			{clInvalid, "min_n", "0"},
 			{clInvalid2, "max_n", "1"}, // docker.local min_n is 3: max_n < min_n
+			{clInvalid2, "min_s", "3"}, // docker.local max_s is 2 (and max_n 7): max_s < min_s <= max_n
 		}},
 	},
 	"storagesc": {
@@ -166,7 +167,10 @@ func settingsNodes() []setNode {
 			if _, err := gn.UnmarshalMsg(b); err != nil {
 				return err
 			}
-			return gn.VerifMiscValidate()
+			if err := gn.VerifMiscValidate(); err != nil {
+				return err
+			}
+			return refMinerSettings(gn)
 		}},
 		{"minersc", "globals", minersc.GLOBALS_KEY, nil}, // judged field by field in the monitor (changed fields must be known and parse)
 		{"storagesc", "config", storagesc.VerifMiscConfigKey(), func(b []byte) error {
@@ -193,6 +197,25 @@ func settingsNodes() []setNode {
 			return gn.Validate()
 		}},
 	}
+}
+
+// refMinerSettings is the reference reading of the documented bounds of the miner contract's settings (sc.yaml:
+// min_n >= 1, min_n <= max_n, min_s >= 1, min_s <= max_s, max_delegates > 0), written here independently so that a
+// slip inside the contract's own validate() (which the oracle above also calls) cannot hide itself.
+func refMinerSettings(gn *minersc.GlobalNode) error {
+	switch {
+	case gn.MinN < 1:
+		return fmt.Errorf("reference: min_n %d < 1", gn.MinN)
+	case gn.MaxN < gn.MinN:
+		return fmt.Errorf("reference: max_n %d < min_n %d", gn.MaxN, gn.MinN)
+	case gn.MinS < 1:
+		return fmt.Errorf("reference: min_s %d < 1", gn.MinS)
+	case gn.MaxS < gn.MinS:
+		return fmt.Errorf("reference: max_s %d < min_s %d", gn.MaxS, gn.MinS)
+	case gn.MaxDelegates <= 0:
+		return fmt.Errorf("reference: max_delegates %d <= 0", gn.MaxDelegates)
+	}
+	return nil
 }
 
 // ownerOf reads the configured owner of a contract from a state.
